@@ -166,6 +166,40 @@ def diagonal_cases(rng):
     return out
 
 
+def nearmiss_cases(rng):
+    """two wires whose ends almost meet (3 .. 30 times the joining tolerance of 1/1000 of the shortest segment, a few
+    millimetres on a 20 m dipole): whether the ends are joined is decided by their distance relative to the segment
+    length, so the decision — and with it the number of unknowns — is the same wherever the antenna is (tens to
+    thousands of wavelengths from the origin) and whatever its size (millimetre waves to long waves).  Returns
+    (antenna, R, t, s) with the motions that stress exactly that."""
+    out = []
+    for k in range(4):
+        f = rng.choice([7.0, 14.0, 28.0])
+        lam = 299.8 / f
+        n1, n2 = rng.randint(5, 9), rng.randint(5, 9)
+        seg = lam / 40
+        tol = seg * 1e-3
+        gap = tol * rng.choice([3.0, 8.0, 30.0])
+        d = antgen.rand_dir(rng)
+        kind = rng.choice(['collinear', 'bent'])
+        a0 = -d * seg * n1
+        a1 = np.zeros(3)
+        b0 = d * gap
+        e = d if kind == 'collinear' else antgen.unit(np.cross(d, antgen.rand_dir(rng)) + 0.3 * d)
+        b1 = b0 + e * seg * n2
+        ant = dict(f=f, ground=False, family='nearmiss-' + kind, lam=lam, seg=seg,
+                   wires=[dict(nseg=n1, p0=[float(x) for x in a0], p1=[float(x) for x in a1], r=seg / 50),
+                          dict(nseg=n2, p0=[float(x) for x in b0], p1=[float(x) for x in b1], r=seg / 50)])
+        R = rotmat(rng.uniform(-180, 180), rng.uniform(-180, 180), rng.uniform(-180, 180))
+        far = lam * rng.choice([25.0, 300.0, 5000.0])
+        t = antgen.rand_dir(rng) * far
+        out.append((ant, np.eye(3), t, 1.0))
+        out.append((ant, R, t * 0.5, 1.0))
+        out.append((ant, np.eye(3), np.zeros(3), rng.choice([1e-5, 2e-4])))     # millimetre waves: segments far below 1 mm
+        out.append((ant, R, np.zeros(3), rng.choice([300.0, 1e4])))
+    return out
+
+
 def replay(rp):
     if 'ant' not in rp:
         print('replay: nothing to execute:', rp.get('kind'))
@@ -212,6 +246,13 @@ def run(ck):
             bad = property_on_impl(ant, ss, R, np.zeros(3), 1.0)
             if bad:
                 viol.append(dict(kind='motion', ant=ant, src_seed=ss, R=R.tolist(), t=[0.0, 0.0, 0.0], s=1.0, observed=bad))
+    for ant, R, t, sc in nearmiss_cases(rng)[:(16 if ck.tier == 'quick' else 64)]:
+        ss = rng.randrange(10 ** 9)
+        ck.case(('nearmiss', ant['family'], float(np.linalg.norm(t)), sc), True)
+        ck.count('nearmiss_cases')
+        bad = property_on_impl(ant, ss, R, t, sc)
+        if bad:
+            viol.append(dict(kind='motion', ant=ant, src_seed=ss, R=R.tolist(), t=t.tolist(), s=sc, observed=bad))
     for i in range(10 if ck.tier == 'quick' else 100):
         bad = options_vs_coords(rng)
         ck.case(('options', i), True)
@@ -221,7 +262,8 @@ def run(ck):
     ck.cov['rule'] = ('antennas from the shared generator, moved by random rotations about three axes and translations up to 100 m '
                       '(free space) / yaw and horizontal shifts (ground), scale factors 0.01..100 with f/s; matrix of the moved '
                       'antenna compared with the Lean fill model; moved vs original currents, impedances and gains on the '
-                      'implementation with the condition-number rule; options vs coordinates')
+                      'implementation with the condition-number rule; options vs coordinates; two-wire structures whose ends miss each other by '
+                      '3-30 joining tolerances, moved 12-5000 wavelengths from the origin and scaled by 1e-5 .. 1e4')
     ck.assumptions += ['over floats the Gauss-order thresholds (t = 6, 10) are hit exactly on uniform wires and a rotated copy may fall on the other side: observed effect <= 1e-5 of the potential scale, absorbed by the 5e-4 of the property',
                        'scaling and pattern clauses are evaluated on the implementation only']
     seen = set()
